@@ -3,7 +3,7 @@
 //! Shared by `src/bin/c02.rs` and `src/bin/c15.rs` (included with `#[path]`).
 //!
 //! `replay --scenarios f.ndjson --out results.ndjson --mode pm|state|instr|engine --focus c02|c15
-//!         [--scale none|p6|pm6|q6|qm6]`
+//!         [--scale none|p6|pm6|q6|qm6|qm9|pm9]`
 //!     Pattern B: replays TLC-generated behaviours (`Gen_Position.tla`) into the real code; every
 //!     step carries the complete expected `Position` / `PositionExited` (exact fractions) and, for
 //!     market events, the price the data state must yield. One result line per scenario.
@@ -19,7 +19,8 @@
 //!              record is what the engine EMITS - the `EngineOutput::PositionExit` entries of
 //!              `ProcessAudit.outputs`, next to the `AlgoOrders` output of the same step
 //!     --scale: scale-equivariant concretisation (DESIGN 5.5): prices and fees x 10^+-6 (p6/pm6)
-//!     or quantities and fees x 10^+-6 (q6/qm6); the expectations are rescaled the same way.
+//!     or quantities and fees x 10^+-6 (q6/qm6), x 10^-9 (qm9/pm9: nine decimal places, finer
+//!     than the 8 places venues usually quote); the expectations are rescaled the same way.
 //!
 //! `random --seed S --steps N --out trace.ndjson --mode state|engine [--nonpos-fills 1]`
 //!     Pattern A: seeded random interleavings of fills, public trades and L1 updates with stale,
@@ -588,6 +589,8 @@ fn scale_of(name: &str) -> (i32, i32) {
         "pm6" => (-6, 0),
         "q6" => (0, 6),
         "qm6" => (0, -6),
+        "qm9" => (0, -9),
+        "pm9" => (-9, 0),
         s => usage(&format!("unknown scale {s}")),
     }
 }
